@@ -603,6 +603,10 @@ pub fn first(a: &HashMap<String, String>) -> i32 {
         for props in caps {
             cases.push(json!({"k": "CONNACK", "pk": {"t": "CONNACK", "rc": rc, "props": props}}));
         }
+        // 128 bytes of properties and more (a Property Length of two bytes), accepted and refused alike
+        for n in [121usize, 122, 123, 124, 125, 126, 300, 16_400] {
+            cases.push(json!({"k": "CONNACK", "pk": {"t": "CONNACK", "rc": rc, "props": [[0x1f, "r".repeat(n)]]}}));
+        }
     }
     for rc in [0x00u8, 0x18, 0x19] {
         for props in [json!([[0x15, "m"], [0x16, "challenge"]]), json!([[0x15, "m"], [0x16, "c"], [0x1f, "more"], [0x26, "k", "v"]])] {
@@ -1414,6 +1418,93 @@ pub fn blockcmp(a: &HashMap<String, String>) -> i32 {
 }
 
 // ---------------------------------------------------------------------------------------------
+// C11: requests that carry no packet identifier (QoS 0 publishes, pings) between two that do. However many of them there are,
+// the second identifier-carrying operation must not get the identifier of the first, which is still outstanding.
+
+pub fn q0wrap(a: &HashMap<String, String>) -> i32 {
+    let mut sink = Sink::new(a);
+    let seed = seed_of(a);
+    for n in [0u64, 1, 300, 65_533, 65_534, 65_535, 65_536, 131_070] {
+        let run = match sink.mine() {
+            Some(x) => x,
+            None => continue,
+        };
+        let mut steps = vec![reset("q0wrap", None, None)];
+        steps.push(json!({"a": "call", "op": 1, "h": 0, "spec": pub_spec(1, 1, 1)}));
+        steps.push(settle_wake());
+        steps.push(json!({"a": "call", "op": 2, "h": 0, "spec": {"kind": "sub", "filters": [{"f": "f/2", "qos": 0}]}}));
+        steps.push(settle_wake());
+        steps.push(json!({"a": "burn0", "n": n}));
+        steps.push(json!({"a": "call", "op": 3, "h": 0, "spec": pub_spec(3, 2, 1)}));
+        steps.push(settle_wake());
+        steps.push(json!({"a": "call", "op": 4, "h": 0, "spec": {"kind": "unsub", "filters": [{"f": "f/4"}]}}));
+        steps.push(settle_wake());
+        for _ in 0..3 {
+            steps.push(json!({"a": "autoack"}));
+            steps.push(settle_wake());
+        }
+        steps.push(settle());
+        sink.run_script(run, steps, seed);
+    }
+    sink.finish();
+    0
+}
+
+// ---------------------------------------------------------------------------------------------
+// C08, order of the acknowledgements when several packets arrive in ONE read: every sequence of 2..4 packets over
+// {PUBLISH QoS 1, PUBLISH QoS 2, its PUBREL, PUBLISH QoS 0, PINGRESP}, delivered as a single chunk (and, for comparison,
+// cut after its first byte): the acknowledgements must come out in the order the packets arrived.
+
+pub fn oneread(a: &HashMap<String, String>) -> i32 {
+    let mut sink = Sink::new(a);
+    let seed = seed_of(a);
+    let mut seqs: Vec<Vec<u8>> = vec![];
+    let mut frontier: Vec<Vec<u8>> = vec![vec![]];
+    for _ in 0..4 {
+        let mut nf = vec![];
+        for s in &frontier {
+            for x in 0..5u8 {
+                let mut t = s.clone();
+                t.push(x);
+                nf.push(t);
+            }
+        }
+        seqs.extend(nf.iter().cloned());
+        frontier = nf;
+    }
+    for sq in seqs {
+        if sq.len() < 2 {
+            continue;
+        }
+        let run = match sink.mine() {
+            Some(x) => x,
+            None => continue,
+        };
+        let mut steps = vec![reset("oneread", None, None)];
+        steps.push(json!({"a": "call", "op": 1, "h": 0, "spec": {"kind": "sub", "filters": [{"f": "f/1", "qos": 2}]}}));
+        steps.push(json!({"a": "call", "op": 2, "h": 0, "spec": {"kind": "ping"}}));
+        steps.push(settle_wake());
+        steps.push(json!({"a": "pkt", "pk": {"t": "SUBACK", "id": {"op": 1}, "rcs": [2]}}));
+        steps.push(settle_wake());
+        let mut pks = vec![];
+        for (i, x) in sq.iter().enumerate() {
+            pks.push(match x {
+                0 => json!({"t": "PUBLISH", "qos": 1, "id": 5, "dup": 0, "topic": format!("o/{}", i), "payload": "a", "sids": [{"sub": 1}]}),
+                1 => json!({"t": "PUBLISH", "qos": 2, "id": 3, "dup": (i % 2) as u8, "topic": "o/q2", "payload": "b", "sids": [{"sub": 1}]}),
+                2 => json!({"t": "PUBREL", "id": 3, "rc": 0}),
+                3 => json!({"t": "PUBLISH", "qos": 0, "id": 0, "dup": 0, "topic": format!("o/{}", i), "payload": "c", "sids": [{"sub": 1}]}),
+                _ => json!({"t": "PINGRESP"}),
+            });
+        }
+        steps.push(json!({"a": "pkts", "pks": pks, "cuts": if run % 4 == 3 { vec![1] } else { vec![] }}));
+        steps.push(settle());
+        sink.run_script(run, steps, seed);
+    }
+    sink.finish();
+    0
+}
+
+// ---------------------------------------------------------------------------------------------
 // C03: framing under every chunking
 
 struct StreamPk {
@@ -1727,6 +1818,13 @@ pub fn chunk(a: &HashMap<String, String>) -> i32 {
                 i += 1;
             }
             aligned.push((v, vec![512, 512 + big]));
+        }
+        // a full 512-byte read that ends inside the remaining-length field of the next packet, after 1, 2 or 3 of its bytes
+        // (lengths of two, three and four bytes: packets of 200, 20 000 and 2 100 000 bytes)
+        for (big, lenbytes) in [(200usize, 2usize), (20_000, 3), (2_100_000, 4)] {
+            for j in 1..lenbytes {
+                aligned.push((vec![exact(512 - 1 - j, 0, 1, 1), exact(big, 1, 9, 2), mk(&Pk::new(mqtt::PINGRESP), 9)], vec![512]));
+            }
         }
         for (apks, cuts) in aligned {
             let np = apks.iter().filter(|p| p.abs["t"] == "PINGRESP").count();
